@@ -61,6 +61,17 @@ CLAIMS = {
         note=NOTE_BASE,
         technique="static analysis: provenance + dominance rules over MIR, unsafe inventory from HIR",
     ),
+    "C08": dict(
+        category="other",
+        text="Partial, and stated as such: decides only the exact-arithmetic FORMULA of covariance and Pearson correlation in matrix form – "
+             "centred rows D = X − mean over the observation axis, Gram product D·Dᵀ of one D (hence symmetric by construction), elementwise "
+             "division by (n − ddof), correlation = cov(ddof₀)/(σσᵀ) with the same ddof₀ – and the constant observation axis. The roundoff "
+             "bounds, the [-1,1] range, the unit diagonal up to roundoff and the affine invariances are numerical statements about runtime "
+             "values that static analysis cannot decide; they are not claimed.",
+        design_ref="DESIGN.md §4 C08",
+        note=NOTE_BASE,
+        technique="static analysis: structural formula conformance of whole-array expressions on MIR",
+    ),
     "C03": dict(
         category="proof",
         text="Static proof of an effect discipline sufficient for 'in-place routines only permute their lanes': over the call graph "
@@ -193,7 +204,6 @@ CLAIMS = {
 
 NOT_APPLICABLE = {
     "C02": "static analysis cannot decide it: functional correctness of randomized quickselect over all order patterns and pivot sequences quantifies over runtime values and needs an array-content domain or a solver (DESIGN.md §4 C02)",
-    "C08": "static analysis cannot decide it: agreement with the definition within a roundoff bound, symmetry, [-1,1] range and affine invariances are numerical statements about runtime values (DESIGN.md §4 C08)",
     "C19": "static analysis cannot decide it: monotonicity in q, ordering between strategies and permutation/relabelling invariance relate values of several runs; nothing in the code's shape decides them short of proving C01/C02 (DESIGN.md §4 C19)",
 }
 
